@@ -41,6 +41,23 @@ def common_checks(S, label, p, rng, atoms, expect_evals=1):
             why=f"energy evaluations={atoms.evals}")
 
 
+def snap_attrs(o):
+    """attribute snapshot that also freezes array CONTENTS (an in-place `-=` keeps the object but changes the values)"""
+    return {k: (x.copy() if isinstance(x, Tensor) else x) for k, x in o.attrs.items()}
+
+
+def _same_value(a, b):
+    if isinstance(a, Tensor) and isinstance(b, Tensor):
+        return a.shape == b.shape and all(_same_value(x, y) for x, y in zip(a.data, b.data))
+    if a is b:
+        return True
+    if isinstance(a, Sym) and isinstance(b, Sym):
+        return bool(z3.simplify(a.t == b.t).eq(z3.BoolVal(True))) or a.t.eq(b.t)
+    if isinstance(a, (int, float)) and isinstance(b, (int, float)) or hasattr(a, "numerator") and hasattr(b, "numerator"):
+        return a == b
+    return False
+
+
 def frame_checks(S, label, i, v, allowed):
     """evaluate writes nothing but the allowed attributes of the criteria and nothing of the context"""
     crit, before = v["crit"], v["before"]
@@ -48,8 +65,8 @@ def frame_checks(S, label, i, v, allowed):
     S.prove(f"{label}#frame.criteria_state_unchanged@{i}", not changed, kind="frame",
             why=f"evaluate wrote criteria attributes {changed} (state carried from one trial to the next)")
     ctx, cb = v["ctx"], v["cbefore"]
-    changed = sorted(k for k in set(ctx.attrs) | set(cb) if ctx.attrs.get(k, None) is not cb.get(k, None))
-    S.prove(f"{label}#frame.context_unchanged@{i}", not changed, kind="frame", why=f"evaluate wrote context attributes {changed}")
+    changed = sorted(k for k in set(ctx.attrs) | set(cb) if not _same_value(ctx.attrs.get(k, None), cb.get(k, None)))
+    S.prove(f"{label}#frame.context_unchanged@{i}", not changed, kind="frame", why=f"evaluate changed the context attributes {changed} (values carried into the next trial)")
 
 
 def replay_info(S, ob, kind, syms):
@@ -119,9 +136,14 @@ def build(S, tier):
         n = I.path.fresh("n", "int")
         I.path.assume(z3.And(T.t > 0, V1.t > 0, V0.t > 0, n.t >= 0))
         rng = RngModel()
-        atoms = AtomsScalar(n, epot=E, cell=CellModel(sym_matrix(I, "h"), volume=V1))
+        from pyvc.models.ase_model import det3
+        h, g = sym_matrix(I, "h"), sym_matrix(I, "g")
+        for M_, V_ in ((h, V1), (g, V0)):          # ase: Cell.volume = |det(cell)| (either handedness)
+            d_ = to_z3(det3(I, M_), "real")
+            I.path.assume(V_.t == z3.If(d_ >= 0, d_, -d_))
+        atoms = AtomsScalar(n, epot=E, cell=CellModel(h, volume=V1))
         ctx = I.new_obj("quansino.mc.contexts.DeformationContext", atoms=atoms, rng=rng, temperature=T,
-                        last_potential_energy=E0, pressure=P, last_cell=CellModel(sym_matrix(I, "g"), volume=V0))
+                        last_potential_energy=E0, pressure=P, last_cell=CellModel(g, volume=V0))
         r = I.call(I.get_function(CRIT + "IsobaricCriteria.evaluate"), [ctx], {})
         return dict(r=r, T=T, E=E, E0=E0, P=P, V1=V1, V0=V0, n=n, rng=rng, atoms=atoms)
 
@@ -146,7 +168,7 @@ def build(S, tier):
         common_checks(S, fq, p, v["rng"], v["atoms"])
 
     # ------------------------------------------------------------------ isotension
-    def run_isotension(I, hydrostatic=False):
+    def run_isotension(I, hydrostatic=False, twice=False):
         T, E, E0, P = (I.path.fresh(n) for n in ("T", "E", "E0", "P"))
         n = I.path.fresh("n", "int")
         h1, h0 = sym_matrix(I, "h"), sym_matrix(I, "g")
@@ -163,27 +185,35 @@ def build(S, tier):
         ctx = I.new_obj("quansino.mc.contexts.DeformationContext", atoms=atoms, rng=rng, temperature=T,
                         last_potential_energy=E0, pressure=P, external_stress=Sx, last_cell=c0)
         crit = I.call(I.get_class(CRIT + "IsotensionCriteria"), [], {})
-        before, cbefore = dict(crit.attrs), dict(ctx.attrs)
+        S_spec = Sx.copy()                      # the stress the user configured (the specification is stated with it)
+        if twice:
+            I.call(I.getattr(crit, "evaluate"), [ctx], {})          # an earlier trial judged with the same context and criteria
+            rng.draws.clear()
+            atoms.evals = 0
+        before, cbefore = dict(crit.attrs), snap_attrs(ctx)
         r = I.call(I.getattr(crit, "evaluate"), [ctx], {})
-        return dict(r=r, T=T, E=E, E0=E0, P=P, V1=V1, V0=V0, n=n, rng=rng, atoms=atoms, S=Sx, crit=crit, h1=h1, h0=h0,
+        return dict(r=r, T=T, E=E, E0=E0, P=P, V1=V1, V0=V0, n=n, rng=rng, atoms=atoms, S=S_spec, crit=crit, h1=h1, h0=h0,
                     before=before, ctx=ctx, cbefore=cbefore)
 
     fq = CRIT + "IsotensionCriteria.evaluate"
-    paths = S.explore(run_isotension, fq)
-    S.register_function(S.new_interp(), fq, len(paths))
-    for i, p in enumerate(paths):
-        S.adopt(p)
+    for twice in (False, True):
+      tag2 = ", second trial with the same context" if twice else ""
+      paths = S.explore(lambda I, tw=twice: run_isotension(I, twice=tw), fq + tag2)
+      if not twice:
+          S.register_function(S.new_interp(), fq, len(paths))
+      for i, p in enumerate(paths):
+        S.adopt(p, prefix="[second trial]" if twice else "")
         if p.status == "unsupported":
             continue
         if p.status != "return":
-            S.prove(f"{fq}#noraise@{i}", False, kind="noraise", why=f"raises {p.exc!r}")
+            S.prove(f"{fq}{tag2}#noraise@{i}", False, kind="noraise", why=f"raises {p.exc!r}")
             continue
         v = p.value
         I = p.interp
         eps = v["crit"].attrs.get("strain_tensor")
         u = v["rng"].draws[0][2].t if v["rng"].draws else z3.Real("no_draw")
         if not isinstance(eps, Tensor) or eps.shape != (3, 3):
-            S.prove(f"{fq}#ensures.strain_stored@{i}", False, why="strain_tensor is not a stored 3x3 array")
+            S.prove(f"{fq}{tag2}#ensures.strain_stored@{i}", False, why="strain_tensor is not a stored 3x3 array")
             continue
         # work = V0 * tr((S - P*1) @ eps)
         tr = z3.RealVal(0)
@@ -194,11 +224,12 @@ def build(S, tier):
         V1, V0 = to_z3(v["V1"], "real"), to_z3(v["V0"], "real")
         L = (-((v["E"].t - v["E0"].t) + v["P"].t * (V1 - V0) + V0 * tr) / (v["T"].t * kB)
              + z3.ToReal(v["n"].t + 1) * F_log(V1 / V0))
-        ob = S.prove(f"{fq}#ensures.metropolis_nst@{i}", to_z3(v["r"], "bool") == spec_accept(u, L), hyps=p.pc)
-        replay_info(S, ob, "isotension", {"T": v["T"], "E": v["E"], "E0": v["E0"], "P": v["P"], "n": v["n"], "u": Sym(u),
+        ob = S.prove(f"{fq}{tag2}#ensures.metropolis_nst@{i}", to_z3(v["r"], "bool") == spec_accept(u, L), hyps=p.pc)
+        if not twice:
+          replay_info(S, ob, "isotension", {"T": v["T"], "E": v["E"], "E0": v["E0"], "P": v["P"], "n": v["n"], "u": Sym(u),
                                           "S": v["S"], "h1": v["h1"], "h0": v["h0"]})
-        common_checks(S, fq, p, v["rng"], v["atoms"])
-        frame_checks(S, fq, i, v, allowed=("strain_tensor",))
+        common_checks(S, fq + tag2, p, v["rng"], v["atoms"])
+        frame_checks(S, fq + tag2, i, v, allowed=("strain_tensor",))
     # hydrostatic corollary: S = P*1  =>  isotension decision == isobaric decision
     paths = S.explore(lambda I: run_isotension(I, hydrostatic=True), fq + "[hydrostatic]")
     for i, p in enumerate(paths):
